@@ -22,7 +22,14 @@ static void vs_move(uint8_t *d, const uint8_t *s, uint64_t n) {
 uint8_t *_ZNSt7__cxx1112basic_stringIcSt11char_traitsIcESaIcEE9_M_createERmm(struct vstr *s, uint64_t *cap, uint64_t old) {
   if (*cap > VSTR_MAX) _ZSt20__throw_length_errorPKc((uint8_t *)"basic_string::_M_create");
   if (*cap > old && *cap < 2 * old) { *cap = 2 * old; if (*cap > VSTR_MAX) *cap = VSTR_MAX; }
+#ifdef VERIF_STR_HEAP_MAX
+  /* constant-size heap buffers: a malloc whose size is symbolic (a length that depends on input) makes every later
+   * access to the object a symbolic-size array operation; requests above the constant are reported, never truncated */
+  if (*cap > VERIF_STR_HEAP_MAX) { VERIF_CHECK(0, "bound: std::string heap buffer larger than VERIF_STR_HEAP_MAX"); VERIF_ASSUME(0); }
+  uint8_t *r = malloc(VERIF_STR_HEAP_MAX + 1); VERIF_ASSUME(r != 0); return r;
+#else
   uint8_t *r = malloc(*cap + 1); VERIF_ASSUME(r != 0); return r;
+#endif
 }
 /* void _M_mutate(size_type pos, size_type len1, const char* s, size_type len2) */
 void _ZNSt7__cxx1112basic_stringIcSt11char_traitsIcESaIcEE9_M_mutateEmmPKcm(struct vstr *s, uint64_t pos, uint64_t len1, uint8_t *str, uint64_t len2) {
